@@ -3,7 +3,7 @@
 //! A statistical monitor: K independent Gaussian noise realisations of a fixed
 //! design; empirical coverage of the confidence band (per sample) and of the
 //! Student-t intervals built from the reported variances (per parameter) must
-//! lie within p ± (6·sqrt(p(1-p)/K) + 0.004); with weights exactly 1/sigma_i
+//! lie within p ± (6·sqrt(p(1-p)/K) + 0.008·sqrt(p(1-p))); with weights exactly 1/sigma_i
 //! the reduced chi² must average 1 within 6·sqrt(2/(nu·K)) + 0.002.
 
 use crate::la::Mat;
@@ -169,8 +169,8 @@ fn realisation(d: &Design, rng: &mut Rng, t: &mut Tally) {
 }
 
 pub fn run(ctx: &Ctx) {
-    ctx.rule("designs: F1 two decays + offset, F2 Gaussian peak + decay + offset, F3 decay + offset, F4 sin(wx) + exp(-ax)cos(wx) on 40 points (basis values, derivatives and whitened Jacobian rows of every sign pattern); F1-F3 on N in {10,14,30} points, coefficients in ±[1,4] (random signs from the fifth design on); noise Gaussian with sigma_i = 1e-4 (every fifth design: 1e-9) of the largest |coefficient| (homoscedastic, unweighted) or spread over a decade (weights 1/sigma_i, or c/sigma_i with c in [0.2,5]; from the fifth design on each weight carries a random sign); per design K independent realisations (quick 30000 on 8 designs, thorough 1000000 on 12; plus one large design with 2089..2169 observations through the parallel constructor and K/50 realisations, and one design in large units: 8 samples, sigma_i of 3..120 in the data's units, weights 1/sigma_i far below one), each fitted with fit_with_statistics from a start 1% off; tallies: true curve inside the band per sample, true c_j and alpha_k inside the Student-t interval built from the reported variance (oracle's own quantile), p in {0.5, 0.683, 0.9, 0.99}; mean reduced chi2 (1 for w=1/sigma, c^2 for w=c/sigma). Verdict per tally: |frequency - p| <= 6·sqrt(p(1-p)/K) + 0.004. evaluations = fits; distinct = (design, realisation block)");
-    ctx.assume("6-sigma binomial bounds over <= 1e3 tests per run give a false-alarm rate < 1e-5 per run; the 0.004 slack absorbs the O(noise) non-linearity bias and the library's quantile approximation; a pass says 'not distinguishable from calibrated at resolution ~0.01'");
+    ctx.rule("designs: F1 two decays + offset, F2 Gaussian peak + decay + offset, F3 decay + offset, F4 sin(wx) + exp(-ax)cos(wx) on 40 points (basis values, derivatives and whitened Jacobian rows of every sign pattern); F1-F3 on N in {10,14,30} points, coefficients in ±[1,4] (random signs from the fifth design on); noise Gaussian with sigma_i = 1e-4 (every fifth design: 1e-9) of the largest |coefficient| (homoscedastic, unweighted) or spread over a decade (weights 1/sigma_i, or c/sigma_i with c in [0.2,5]; from the fifth design on each weight carries a random sign); per design K independent realisations (quick 30000 on 8 designs, thorough 1000000 on 12; plus one large design with 2089..2169 observations through the parallel constructor and K/50 realisations, and one design in large units: 8 samples, sigma_i of 3..120 in the data's units, weights 1/sigma_i far below one), each fitted with fit_with_statistics from a start 1% off; tallies: true curve inside the band per sample, true c_j and alpha_k inside the Student-t interval built from the reported variance (oracle's own quantile), p in {0.5, 0.683, 0.9, 0.99}; mean reduced chi2 (1 for w=1/sigma, c^2 for w=c/sigma). Verdict per tally: |frequency - p| <= 6·sqrt(p(1-p)/K) + 0.008·sqrt(p(1-p)). evaluations = fits; distinct = (design, realisation block)");
+    ctx.assume("6-sigma binomial bounds over <= 1e3 tests per run give a false-alarm rate < 1e-5 per run; the slack 0.008·sqrt(p(1-p)) (0.004 at p=0.5, 0.0008 at p=0.99) absorbs the O(noise) non-linearity bias and the library's quantile approximation; a pass says 'not distinguishable from calibrated at resolution ~0.01'");
     let t = ctx.tier;
     let k_per = t.pick(30000u64, 1000000u64);
     let ds = designs(ctx.seed, t.pick(8, 12));
@@ -231,7 +231,11 @@ pub fn run(ctx: &Ctx) {
         let mut worst_dev: f64 = 0.0;
         let mut cov_rows = Vec::new();
         for (pi, pv) in PS.iter().enumerate() {
-            let bound = 6.0 * (pv * (1.0 - pv) / k).sqrt() + 0.004;
+            // 6 sigma of the binomial frequency plus a slack for the O(noise) non-linearity bias and the
+            // library's quantile approximation; a relative error of the radius moves the coverage by an
+            // amount proportional to the density at the quantile, so the slack scales like sqrt(p(1-p))
+            // (0.004 at p = 0.5, 0.0024 at p = 0.9, 0.0008 at p = 0.99)
+            let bound = 6.0 * (pv * (1.0 - pv) / k).sqrt() + 0.008 * (pv * (1.0 - pv)).sqrt();
             let mut check = |what: String, count: u64, out: &mut CaseOut| {
                 let f = count as f64 / k;
                 let dev = (f - pv).abs();
